@@ -105,7 +105,7 @@ type endpoint struct {
 
 	gid       int64         // goroutine id of the protocol function (the peer's message loop)
 	claimTD   uint64        // the most this connection has claimed to have (status TD, announced momentum heights)
-	noSync    func() bool   // rule clause 4: no sync cycle can start (set by the session; nil = unknown = never decide for the downloader)
+	noSync    func() bool   // rule clause 4: no sync cycle can start (set by the session; nil = nobody connected claims anything)
 	wedged    *blockVerdict // verdict of the stall classifier for this connection's handler
 	wedgeTold bool
 	whyNot    string // why the last stalled wait was not classified as blocked
@@ -350,7 +350,8 @@ type session struct {
 	sh       *shared
 	node     *sim.Node
 	onA      bool
-	k        uint64 // node height at session start
+	k        uint64 // node height the generators work with (start height; after a completed sync the tip)
+	k0       uint64 // node height at session start
 	tip      uint64 // chain the hostile peer may honestly present: A[1..tip]
 	pm       *protocol.ProtocolManager
 	chainID  uint64
@@ -1661,6 +1662,7 @@ func sessionProp(c *pbt.C) {
 		}
 		c.Class("target-follower")
 	}
+	s.k0 = s.k
 	s.heightOf = map[types.Hash]uint64{}
 	top := s.tip
 	for h := uint64(1); h <= top; h++ {
@@ -1762,24 +1764,45 @@ func sessionProp(c *pbt.C) {
 			return
 		}
 	}
+	if !s.finish(frontier0, pool0, dump0) {
+		return
+	}
+	if s.reached > 0 {
+		c.NonTrivial()
+	}
+	c.R.Count("messages", s.msgNo)
+	c.R.Count("messages_reaching_lookup", s.reached)
+}
+
+// finish: barrier, liveness probe by the honest peer, shutdown, state oracle. frontier0 / pool0 /
+// dump0 describe the node when the session began (height s.k0). It returns false if the session was
+// aborted (inconclusive wait).
+func (s *session) finish(frontier0 types.Hash, pool0, dump0 string) bool {
+	c := s.c
+	s.stopResponder()
+	if s.honest == nil || s.honest.gone() {
+		if !s.connectHonest() {
+			return false
+		}
+	}
 	// barrier: every import started by what was delivered has finished
 	c.Checkpoint()
 	if o := s.honest.deliverBytes(codeBlocks, []byte{0xC0}, "empty BlocksMsg (barrier)"); o != delivered {
 		if o == blocked {
 			s.aborted = true
 			s.blockedFail(s.honest, "the honest peer's empty BlocksMsg")
-			return
+			return false
 		}
 		if o == stalled {
 			s.aborted = true
 			inconclusive(c, "barrier message made no progress (not classified as blocked: "+s.honest.whyNot+")", dumpAll())
-			return
+			return false
 		}
 		if s.honest.res.panicked {
 			c.Failf("C15/handler-panic/honest-Blocks", "handler panic on an empty BlocksMsg of the honest peer: %v\n%s", s.honest.res.pval, trim(s.honest.res.stack, 3000))
 		}
 		c.Failf("C15/honest-dropped", "the honest peer was dropped on an empty BlocksMsg: %v", s.honest.res.err)
-		return
+		return false
 	}
 	tb := time.Now()
 	okImp, g := waitNone(importing)
@@ -1787,11 +1810,11 @@ func sessionProp(c *pbt.C) {
 	if ok := okImp; !ok {
 		s.aborted = true
 		inconclusive(c, "imports still running", g)
-		return
+		return false
 	}
 	s.honestChecks()
 	if s.aborted {
-		return
+		return false
 	}
 	s.unreportedPanics()
 	s.unreportedBlocks()
@@ -1801,7 +1824,7 @@ func sessionProp(c *pbt.C) {
 	// --- state, read after the manager and everything it started have come to rest
 	if !s.shutdown() {
 		s.aborted = true
-		return
+		return false
 	}
 	s.unreportedPanics()
 	fr := s.node.Frontier()
@@ -1830,9 +1853,9 @@ func sessionProp(c *pbt.C) {
 				c.Failf("C15/state-changed", "the node's store changed although its frontier did not: %s", firstDiff(dump0, d))
 			}
 		}
-	case hNow > s.k && s.allValid(hNow) && fNow == s.hashAt(hNow):
+	case hNow > s.k0 && s.allValid(hNow) && fNow == s.hashAt(hNow):
 		c.Class("node-imported-valid-momentums")
-		s.note("node advanced %d -> %d on momentums of A delivered by the peer", s.k, hNow)
+		s.note("node advanced %d -> %d on momentums of A delivered by the peer", s.k0, hNow)
 		// its store equals that of a follower that was handed exactly A[2..hNow] and nothing else
 		ref := s.sh.w.AddNode("R", false)
 		_, rerr := ref.Bridge.InsertChain(s.sh.a.Range(2, hNow))
@@ -1843,23 +1866,19 @@ func sessionProp(c *pbt.C) {
 		}
 		if d := s.node.Dump(); d != rd {
 			c.Failf("C15/state-changed", "after importing A[%d..%d] from the hostile peer the node's store differs from a follower that only saw the honest chain: %s",
-				s.k+1, hNow, firstDiff(rd, d))
+				s.k0+1, hNow, firstDiff(rd, d))
 		}
 	default:
 		c.Failf("C15/state-changed", "node went from %d/%s to %d/%s; momentums of A handed over unmodified by the peer: heights %v (with all their account blocks: %v)",
-			s.k, short(frontier0), hNow, short(fNow), s.validHeights(), s.allValid(hNow))
+			s.k0, short(frontier0), hNow, short(fNow), s.validHeights(), s.allValid(hNow))
 	}
-	if s.reached > 0 {
-		c.NonTrivial()
-	}
-	c.R.Count("messages", s.msgNo)
-	c.R.Count("messages_reaching_lookup", s.reached)
+	return true
 }
 
 // allValid: the peer handed over, unmodified, every momentum of A from the node's height up to
 // upTo and every account block they commit to (in the same message or in another one).
 func (s *session) allValid(upTo uint64) bool {
-	for h := s.k + 1; h <= upTo; h++ {
+	for h := s.k0 + 1; h <= upTo; h++ {
 		if !s.validSet[h] || h > earlyTop {
 			return false
 		}
